@@ -2,6 +2,7 @@ import Proofs.Lemmas.AliasStore
 import Proofs.Lemmas.AliasPref
 import Proofs.Lemmas.AliasClass
 import Proofs.Lemmas.AliasFail
+import Proofs.Lemmas.AliasCtor
 /-
 C18 — An alias is indistinguishable from the variable it names.
 
@@ -783,6 +784,186 @@ theorem plain_twin_history (env : Env α V P) {a : AMap α} (hc : chained a = fa
 /-- `o.plain` is a twin of `o`. -/
 theorem plain_is_twin (o : Obj α V P) : Twin o.aliases o o.plain := ⟨rfl, rfl, rfl, rfl⟩
 
+
+/-! ## 8. Constructor routes: every route that builds an instance is `construct ∘ resolve-keys`
+
+`FsicModel/AliasCtor.lean`: `Model(span, **kw)`, `Model.from_dataframe(df, **kw)` (the column labels become
+keywords, spelled as they are), `Linker(submodels, **kw)`, and the round trip through
+`to_dataframe(use_aliases=True)`.  A column (or keyword) named by ANY name that resolves to the variable `v` -
+`v` itself, an alias, an alias of an alias, the far end of a declared chain - initialises `v` with exactly
+that column's data; nothing is dropped on the way to `AliasMixin.__init__`. -/
+
+/-- The routes, keyword by keyword: the class behind the mixin sees the resolved names and nothing else. -/
+theorem ctor_routes_resolve_keys (a : AMap α) (strict : Bool) (names : List α) (dflt : P)
+    (cols extra kwargs : List (α × P)) :
+    fromDataframeAliased a strict names dflt cols extra =
+      (if clash cols extra then .error typeError
+       else ctorBase strict names dflt (relabel (resolve a) (cols ++ extra))) ∧
+    linkerCtorAliased a names dflt kwargs = ctorBase false names dflt (relabel (resolve a) kwargs) :=
+  ⟨rfl, rfl⟩
+
+/-- **`from_dataframe` with alias-named columns.**  Each variable is given at most once (`hnd`: no two of the
+    column labels / extra keywords resolve to the same name).  Then (1) the result - instance or exception - is
+    that of the class WITHOUT the mixin on the canonically labelled table and keywords, and (2) if an instance
+    comes back it has exactly the model's variables, every column / keyword whose name resolves to a variable
+    `v` is `v`'s initial value - whatever spelling was used -, and every variable that no label resolves to
+    holds the default. -/
+theorem from_dataframe_alias_columns (a : AMap α) (strict : Bool) (names : List α) (dflt : P)
+    (cols extra : List (α × P)) (hnd : ((cols ++ extra).map fun kv => resolve a kv.1).Nodup) :
+    fromDataframeAliased a strict names dflt cols extra =
+      fromDataframeBase strict names dflt (relabel (resolve a) cols) (relabel (resolve a) extra) ∧
+    ∀ init, fromDataframeAliased a strict names dflt cols extra = .ok init →
+      init.map Prod.fst = names ∧
+      (∀ x p, (x, p) ∈ cols ++ extra → resolve a x ∈ names → (resolve a x, p) ∈ init) ∧
+      (∀ n, n ∈ names → (∀ kv, kv ∈ cols ++ extra → resolve a kv.1 ≠ n) → (n, dflt) ∈ init) := by
+  have hnd' : ((relabel (resolve a) (cols ++ extra)).map Prod.fst).Nodup := by
+    rw [map_fst_relabel]; exact hnd
+  have hraw : ((cols ++ extra).map Prod.fst).Nodup := by
+    have e : ((cols ++ extra).map fun kv => resolve a kv.1) = ((cols ++ extra).map Prod.fst).map (resolve a) := by
+      simp [List.map_map, Function.comp_def]
+    rw [e] at hnd
+    exact List.Pairwise.of_map (resolve a) (fun x y hne e => hne (by rw [e])) hnd
+  have hc1 := clash_false_of_nodup hraw
+  have hc2 : clash (relabel (resolve a) cols) (relabel (resolve a) extra) = false :=
+    clash_false_of_nodup (by rw [← relabel_append]; exact hnd')
+  have hroute : fromDataframeAliased a strict names dflt cols extra =
+      ctorBase strict names dflt (relabel (resolve a) (cols ++ extra)) := by
+    simp [fromDataframeAliased, hc1, ctorAliased, relabel]
+  refine ⟨?_, ?_⟩
+  · rw [hroute]
+    simp [fromDataframeBase, hc2, relabel_append]
+  · intro init h
+    rw [hroute] at h
+    have e := ctorBase_ok h
+    subst e
+    refine ⟨by simp [List.map_map, Function.comp_def], ?_, ?_⟩
+    · intro x p hxp hx
+      have hm : (resolve a x, p) ∈ relabel (resolve a) (cols ++ extra) :=
+        List.mem_map.mpr ⟨(x, p), hxp, rfl⟩
+      exact List.mem_map.mpr ⟨resolve a x, hx, by rw [lookupLast_of_mem hnd' hm]; rfl⟩
+    · intro n hn hno
+      have hnot : n ∉ (relabel (resolve a) (cols ++ extra)).map Prod.fst := by
+        rw [map_fst_relabel]
+        intro hmem
+        obtain ⟨kv, hkv, e⟩ := List.mem_map.mp hmem
+        exact hno kv hkv e
+      exact List.mem_map.mpr ⟨n, hn, by rw [lookupLast_none hnot]; rfl⟩
+
+/-- Chains: any name further along the declared chain of `x` (1, 2, 3 … links) resolves on the instance as `x`
+    does - the instance map is the shortened one. -/
+theorem chain_label_resolves {m a : AMap α} (hwf : WF m) (h : instanceAliases m = .returned a) (x : α) (i : Nat) :
+    resolve a (follow m i x) = resolve a x := by
+  induction i generalizing x with
+  | zero => rfl
+  | succ i ih =>
+    show resolve a (follow m i (resolve m x)) = resolve a x
+    rw [ih]
+    rcases resolve_cases m x with ⟨_, e⟩ | hmem
+    · rw [e]
+    · exact ((declared_alias_resolves_alike hwf h hmem).1).symm
+
+/-- A table (or keyword set) labelled through one spelling and the same table labelled through names that lie
+    anywhere along the declared chains of those spellings (direct alias, alias of an alias, chain of 3, the
+    variable itself; a mixture) build the same instance or raise alike. -/
+theorem from_dataframe_chain_labels {m a : AMap α} (hwf : WF m) (h : instanceAliases m = .returned a)
+    (f g : α → α) (hfg : ∀ n, ∃ i, g n = follow m i (f n)) (strict : Bool) (names : List α) (dflt : P)
+    (cols : List (α × P)) :
+    fromDataframeAliased a strict names dflt (relabel f cols) [] =
+      fromDataframeAliased a strict names dflt (relabel g cols) [] ∧
+    ctorAliased a strict names dflt (relabel f cols) = ctorAliased a strict names dflt (relabel g cols) := by
+  have hr : ∀ n, resolve a (f n) = resolve a (g n) := by
+    intro n
+    obtain ⟨i, e⟩ := hfg n
+    rw [e, chain_label_resolves hwf h]
+  have e := ctor_indistinguishable a strict names dflt cols f g hr
+  exact ⟨by simpa [fromDataframeAliased, clash_nil, relabel] using e, e⟩
+
+/-- **Export, then import.**  Guard as for the export: no column label is itself an alias.  Building an
+    instance from the aliased export is building it from the plain one: every renamed column finds its way
+    back to the variable it came from. -/
+theorem export_import_round_trip (le : α → α → Bool) {a : AMap α} (hwf : WF a) (pref : List α) (strict : Bool)
+    (names : List α) (dflt : P) (cols out : List (α × P)) (hx : exportCols le a pref cols = some out)
+    (hg : ∀ c, c ∈ cols.map Prod.fst → c ∉ keys a) :
+    fromDataframeAliased a strict names dflt out [] = fromDataframeBase strict names dflt cols [] := by
+  obtain ⟨f, rfl, hf⟩ := exportCols_shape le a pref cols out hx
+  have hback : relabel (resolve a) (renameDf f cols) = cols := by
+    unfold relabel renameDf
+    rw [List.map_map]
+    conv => rhs; rw [← List.map_id cols]
+    apply List.map_congr_left
+    intro c hc
+    have hk : c.1 ∉ keys a := hg _ (List.mem_map_of_mem hc)
+    have : resolve a (f c.1) = c.1 := by
+      rcases hf c.1 with e | hmem
+      · rw [e]; exact resolve_of_not_key hk
+      · exact resolve_of_mem hwf hmem
+    simp [Function.comp, this]
+  have h1 : fromDataframeAliased a strict names dflt (renameDf f cols) [] =
+      ctorBase strict names dflt (relabel (resolve a) (renameDf f cols)) := by
+    simp [fromDataframeAliased, clash_nil, ctorAliased, relabel]
+  rw [h1, hback]
+  simp [fromDataframeBase, clash_nil]
+
+/-- … and the instance that comes back holds the same values: `from_dataframe(m.to_dataframe(use_aliases=True,
+    status=False, iterations=False))` has every variable of `m` with the series it has in `m`. -/
+theorem round_trip_same_values (le : α → α → Bool) {a : AMap α} (hwf : WF a) (pref : List α) (strict : Bool)
+    {names : List α} (hnd : names.Nodup) (dflt : P) (val : α → P) (hg : ∀ n, n ∈ names → n ∉ keys a)
+    (hx : (exportCols le a pref (names.map fun n => (n, val n))).isSome) :
+    roundTrip le a pref strict names dflt (names.map fun n => (n, val n)) =
+      some (.ok (names.map fun n => (n, val n))) := by
+  obtain ⟨out, hout⟩ := Option.isSome_iff_exists.mp hx
+  have hlab : (names.map fun n => (n, val n)).map Prod.fst = names := by
+    simp [List.map_map, Function.comp_def]
+  unfold roundTrip
+  rw [hout, Option.map_some]
+  rw [export_import_round_trip le hwf pref strict names dflt _ out hout (by rw [hlab]; exact hg)]
+  simp only [fromDataframeBase, clash_nil, List.append_nil]
+  unfold ctorBase
+  have hno : ((names.map fun n => (n, val n)).any fun kv => decide (kv.1 ∉ names)) = false := by
+    rw [List.any_eq_false]
+    intro kv hkv
+    obtain ⟨n, hn, rfl⟩ := List.mem_map.mp hkv
+    simpa using hn
+  simp only [hno, Bool.and_false, Bool.false_eq_true, and_false, ite_false]
+  congr 2
+  apply List.map_congr_left
+  intro n hn
+  have hl : ctorBase.lookupLast (names.map fun n => (n, val n)) n = some (val n) :=
+    lookupLast_of_mem (by rw [hlab]; exact hnd) (List.mem_map.mpr ⟨n, hn, rfl⟩)
+  rw [hl]
+  rfl
+
+/-! ## 9. The form of a name
+
+Names are an abstract type: what the model computes depends on which names are EQUAL and on nothing else.
+Stated as invariance under any injective re-encoding `f` of the names (into strings of another class, numbers,
+…): resolution, the constructor's alias stage (returned map or `ValueError`) and the constructor keywords all
+commute with `f`.  That Python's str forms of one name (`str`, `numpy.str_`, a `str`+`Enum` member, a user
+subclass of `str`, interned or not) ARE equal names - `==` and `hash` agree, so `dict.get` and `in` cannot
+tell them apart - is an assumption about the code path, not a theorem: `_resolve_alias` could inspect the type.
+The harness checks it (part K). -/
+
+theorem resolve_reencode {β : Type} [DecidableEq β] (f : α → β) (hf : ∀ x y, f x = f y → x = y) (m : AMap α)
+    (x : α) : resolve (reMap f m) (f x) = f (resolve m x) :=
+  resolve_reMap f hf m x
+
+theorem constructor_reencode {β : Type} [DecidableEq β] (f : α → β) (hf : ∀ x y, f x = f y → x = y) (m : AMap α) :
+    instanceAliases (reMap f m) = (instanceAliases m).map (reMap f) :=
+  instanceAliases_reMap f hf m
+
+theorem ctor_reencode {β : Type} [DecidableEq β] (f : α → β) (hf : ∀ x y, f x = f y → x = y) (a : AMap α)
+    (strict : Bool) (names : List α) (dflt : P) (kwargs : List (α × P)) :
+    ctorAliased (reMap f a) strict (names.map f) dflt (kwargs.map fun kv => (f kv.1, kv.2)) =
+      (ctorAliased a strict names dflt kwargs).map (List.map fun kv => (f kv.1, kv.2)) := by
+  unfold ctorAliased
+  rw [← ctorBase_reencode f hf]
+  congr 1
+  simp only [List.map_map]
+  apply List.map_congr_left
+  intro kv _
+  simp only [Function.comp]
+  rw [resolve_reMap f hf]
+
 end Fsic.C18
 
 /-! ## Concrete instances that meet the hypotheses used above -/
@@ -924,5 +1105,41 @@ example : (runEvents World.init (exClasses ++ [.new 0, .setAliases 0 [("output",
     [.ok 0 [("GDP", "Y")] [], .ok 0 [("output", "Y")] [], .ok 1 [("income", "Y")] ["income"],
      .ok 1 [("income", "Y"), ("k", "Y")] ["income"], .ok 2 [("income", "Y"), ("k", "Y")] ["income"],
      .ok 2 [("output", "Y")] ["income"]] := by decide
+
+-- constructor routes: a declared chain of 3 (`o3 -> out -> GDP -> Y`) and a second alias of `C`
+def exChain : AMap String := [("o3", "out"), ("out", "GDP"), ("GDP", "Y"), ("cons", "C")]
+def exInst : AMap String := [("o3", "Y"), ("out", "Y"), ("GDP", "Y"), ("cons", "C")]
+def okInit : Except Err (List (String × Nat)) → Option (List (String × Nat))
+  | .ok l => some l
+  | .error _ => none
+def errOf : Except Err (List (String × Nat)) → Option Err
+  | .ok _ => none
+  | .error e => some e
+example : WF exChain ∧ instanceAliases exChain = .returned exInst := by unfold WF keys; decide
+-- hypotheses of `from_dataframe_alias_columns`: each variable given once, through a chain of 3 / an alias / a keyword
+example : (([("o3", 5), ("cons", 6)] ++ [("G", 7)] : List (String × Nat)).map fun kv => resolve exInst kv.1).Nodup := by decide
+example : okInit (fromDataframeAliased exInst false ["Y", "C", "G", "H"] 0 [("o3", 5), ("cons", 6)] [("G", 7)]) =
+    some [("Y", 5), ("C", 6), ("G", 7), ("H", 0)] := by decide
+example : okInit (fromDataframeAliased exInst true ["Y", "C", "G", "H"] 0 [("o3", 5), ("cons", 6)] [("G", 7)]) =
+    okInit (fromDataframeBase true ["Y", "C", "G", "H"] 0 [("Y", 5), ("C", 6)] [("G", 7)]) := by decide
+-- strict: a label that resolves to no variable is rejected (as its canonical spelling is)
+example : errOf (fromDataframeAliased exInst true ["Y", "C"] 0 [("o3", 5), ("zzz", 6)] []) = some .initialisationError := by decide
+-- the same keyword spelled twice is Python's TypeError; two spellings of one variable are not (the later wins)
+example : errOf (fromDataframeAliased exInst false ["Y", "C"] 0 [("GDP", 5)] [("GDP", 6)]) = some typeError ∧
+    okInit (fromDataframeAliased exInst false ["Y", "C"] 0 [("GDP", 5)] [("o3", 6)]) = some [("Y", 6), ("C", 0)] := by decide
+-- `from_dataframe_chain_labels`: `Y` is 3 links along the chain of `o3`, `GDP` two
+example : follow exChain 3 "o3" = "Y" ∧ follow exChain 2 "o3" = "GDP" ∧ follow exChain 1 "cons" = "C" := by decide
+-- round trip: export under aliases (preferred `out` for `Y`), import again: the same values
+example : (exportCols strLe exInst ["out"] [("Y", 1), ("C", 2), ("G", 3)]).map (List.map Prod.fst) = some ["out", "cons", "G"] := by
+  decide
+example : (roundTrip strLe exInst ["out"] true ["Y", "C", "G"] 0 [("Y", 1), ("C", 2), ("G", 3)]).bind okInit =
+    some [("Y", 1), ("C", 2), ("G", 3)] := by decide
+example : WF exInst ∧ ∀ n, n ∈ ["Y", "C", "G"] → n ∉ keys exInst := by unfold WF keys; decide
+-- re-encoding: names as numbers (0 = the variable, 1 -> 0, 2 -> 1), re-encoded by an injective code
+def exCode (n : Nat) : Nat := 2 * n + 100
+example : ∀ x y, exCode x = exCode y → x = y := by intro x y h; unfold exCode at h; omega
+example : instanceAliases (reMap exCode [(1, 0), (2, 1)]) = .returned [(102, 100), (104, 100)] ∧
+    (instanceAliases [(1, 0), (2, 1)]).map (reMap exCode) = .returned [(102, 100), (104, 100)] ∧
+    resolve (reMap exCode [(1, 0), (2, 0)]) (exCode 2) = exCode 0 := by decide
 
 end Fsic.C18
